@@ -5,27 +5,73 @@
 
 package google
 
-// What Check needs of a parsed CRLSet: the list filed under the issuer's SPKI hash holds
-// non-nil entries with non-nil serial numbers (Parse appends &entry and sets new(big.Int)).
-//@ pred okList(l) = l != nil ==> forall(i, 0, len(l.Entries), l.Entries[i] != nil && l.Entries[i].SerialNumber != nil)
-//@ pred blocked(s, h) = exists(j, 0, len(s.BlockedSPKIs), s.BlockedSPKIs[j] == h)
+// ---------------------------------------------------------------- Check
+//
+// ghost.bigEq(x, y): the integers stored at x and y are equal (decided by (*big.Int).Cmp,
+// /verif/extern/bigint.contracts).
+// ghost.filedAt(s, k, l): "l is the (non-nil) list filed in s.IssuerLists under key k". The
+// relation is DEFINED by the precondition graph(s) - it holds exactly for the pairs of the
+// map - and only gives the lists a name: a map lookup is an if-then-else term, which may not
+// occur in a quantifier trigger, so every quantifier over list positions ranges over a list
+// named by a variable l with filedAt(s, k, l).
 //@ pred listOf(s, h) = s.IssuerLists[h]
-// [blocked]/[nolist]/[member] describe Check in terms of string equality with the entries of
-// BlockedSPKIs. The CRLSet format writes those entries in base64 while IssuerLists is keyed
-// by the hex text of the same kind of hash (IssuerList.SPKIHash, "SHA256 of Issuer SPKI"), so
-// "the set blocks this issuer's SPKI" is spec.b64_is_hex32(entry, issuerSPKIHash): clause
-// [defect_blockedspki] states that such a certificate is reported. It FAILS on the code as it
-// is (demonstration in /verif/notes/revocation.md).
+//@ pred graph(s) = forallv(k, string, listOf(s, k) != nil ==> ghost.filedAt(s, k, listOf(s, k))) && forallv(k, string, forallv(l, *IssuerList, ghost.filedAt(s, k, l) ==> l != nil && l == listOf(s, k)))
+// Representation invariant of a parsed CRLSet: every issuer list holds non-nil entries with
+// non-nil serial numbers (Parse appends &entry and sets new(big.Int)).
+// Quantifiers over list positions: spec.at is the identity (/verif/specs/revocation.smt2), so
+// ix(i) is true; it only plants the trigger term at(i) (index arithmetic inside a trigger is
+// matched syntactically by the solver and is unreliable). Existentials are written as negated
+// universals so that they carry the trigger too.
+//@ pred ix(i) = spec.at(i) == i
+//@ pred okList(l) = forall(i, 0, len(l.Entries), ix(i) ==> l.Entries[i] != nil && l.Entries[i].SerialNumber != nil, spec.at(i))
+//@ pred okSet(s) = s != nil && graph(s) && forallv(k, string, forallv(l, *IssuerList, ghost.filedAt(s, k, l) ==> okList(l)))
+// "BlockedSPKIs[j] names issuerSPKIHash": the element is that string, or it is accepted by
+// base64.StdEncoding and denotes octets whose hexadecimal text is issuerSPKIHash (the CRLSet
+// format writes blocked SPKI hashes in base64; callers pass the hex text that keys
+// IssuerLists). b64ok / b64hex are the vocabulary of the assumed contracts of encoding/base64
+// and encoding/hex; for the canonical base64 text of a 32-octet hash they are fixed by
+// RFC 4648 (spec.b64_is_hex32), which is what [blocked_rfc] uses.
+//@ pred names(s, h, j) = s.BlockedSPKIs[j] == h || (spec.b64ok(s.BlockedSPKIs[j]) && spec.b64hex(s.BlockedSPKIs[j]) == h)
+//@ pred notBlockedUpTo(s, h, n) = forall(j, 0, n, ix(j) ==> !names(s, h, j), spec.at(j))
+//@ pred notBlocked(s, h) = notBlockedUpTo(s, h, len(s.BlockedSPKIs))
+//@ pred noRFCMatchUpTo(s, h, n) = forall(j, 0, n, ix(j) ==> !spec.b64_is_hex32(s.BlockedSPKIs[j], h), spec.at(j))
+//@ pred sameSerial(e, cert) = ghost.bigEq(e.SerialNumber, cert.SerialNumber)
+// "the first n elements of l do not have cert's serial number" / "some element of l has it" /
+// "r is the first element of l that has it": r has it, and every element that has it stands
+// at or behind an occurrence of r.
+//@ pred noHit(l, cert, n) = forall(j, 0, n, ix(j) ==> !sameSerial(l.Entries[j], cert), spec.at(j))
+//@ pred revokes(l, cert) = !noHit(l, cert, len(l.Entries))
+//@ pred occursUpTo(l, r, n) = !forall(i, 0, n, ix(i) ==> l.Entries[i] != r, spec.at(i))
+//@ pred firstHit(l, cert, r) = sameSerial(r, cert) && forall(j, 0, len(l.Entries), ix(j) && sameSerial(l.Entries[j], cert) ==> occursUpTo(l, r, j+1), spec.at(j))
 
+// Check(cert, issuerSPKIHash) - "by issuer SPKI hash and serial or blocked SPKI" (C15):
+// [blocked] an issuerSPKIHash named by an element of BlockedSPKIs is reported with a new
+//           entry carrying the certificate's serial number (stated as the contrapositive:
+//           any other outcome means that no element names it);
+// [blocked_rfc] in particular (RFC 4648 reading, independent of the library vocabulary): when
+//           an element is the canonical base64 text and issuerSPKIHash the lower-case
+//           hexadecimal text of the same 32 octets, the certificate is reported. (This clause
+//           FAILED before /repo commit 6a07443 - defect D1 in /verif/notes/revocation.md.)
+// otherwise, with l the list filed under issuerSPKIHash:
+// [nolist]  nothing is reported when there is no such list;
+// [exact_listed], [exact_only] an entry is reported exactly when l lists a serial number
+//           equal to cert's; [which] it is the FIRST element of l with that serial number.
 //@ func (*CRLSet).Check
-//@   requires crlSet != nil && okList(listOf(crlSet, issuerSPKIHash)) && cert != nil && cert.SerialNumber != nil
-//@   loop 1 invariant forall(j, 0, it, crlSet.BlockedSPKIs[j] != issuerSPKIHash)
-//@   ensures [blocked] blocked(crlSet, issuerSPKIHash) ==> result != nil && fresh(result) && result.SerialNumber == cert.SerialNumber
-//@   ensures [defect_blockedspki] exists(j, 0, len(crlSet.BlockedSPKIs), spec.b64_is_hex32(crlSet.BlockedSPKIs[j], issuerSPKIHash)) ==> result != nil
-//@   ensures [nolist]  !blocked(crlSet, issuerSPKIHash) && listOf(crlSet, issuerSPKIHash) == nil ==> result == nil
-//@   ensures [member]  !blocked(crlSet, issuerSPKIHash) && result != nil ==> listOf(crlSet, issuerSPKIHash) != nil && exists(i, 0, len(listOf(crlSet, issuerSPKIHash).Entries), listOf(crlSet, issuerSPKIHash).Entries[i] == result)
+//@   uses perreturn
+//@   requires okSet(crlSet) && cert != nil && cert.SerialNumber != nil
+//@   loop 1 invariant ix(it) && notBlockedUpTo(crlSet, issuerSPKIHash, it)
+//@   loop 2 invariant ix(it) && forallv(l, *IssuerList, ghost.filedAt(crlSet, issuerSPKIHash, l) ==> noHit(l, cert, it))
+//@   ensures [blocked] result == nil || !fresh(result) || result.SerialNumber != cert.SerialNumber ==> notBlocked(crlSet, issuerSPKIHash)
+//@   ensures [blocked_rfc] result == nil ==> noRFCMatchUpTo(crlSet, issuerSPKIHash, len(crlSet.BlockedSPKIs))
+//@   ensures [nolist]  notBlocked(crlSet, issuerSPKIHash) && listOf(crlSet, issuerSPKIHash) == nil ==> result == nil
+//@   ensures [exact_listed] forallv(l, *IssuerList, ghost.filedAt(crlSet, issuerSPKIHash, l) && notBlocked(crlSet, issuerSPKIHash) && result == nil ==> noHit(l, cert, len(l.Entries)))
+//@   ensures [exact_only]   forallv(l, *IssuerList, ghost.filedAt(crlSet, issuerSPKIHash, l) && notBlocked(crlSet, issuerSPKIHash) && result != nil ==> revokes(l, cert))
+//@   ensures [which]   forallv(l, *IssuerList, ghost.filedAt(crlSet, issuerSPKIHash, l) && notBlocked(crlSet, issuerSPKIHash) && result != nil ==> firstHit(l, cert, result))
+//@   modifies nothing
 //@   terminates
 
+// ---------------------------------------------------------------- getHeader, Parse
+//
 // CRLSet framing: a 2-octet little-endian header length, the JSON header, then the body.
 //@ pred hlen(c) = int(uint16(c[0]) | uint16(c[1])<<8)
 //@ func getHeader
@@ -33,3 +79,24 @@ package google
 //@   ensures len(c) < 2 || len(c) - 2 < hlen(c) ==> err != nil
 //@   ensures err != nil ==> rest == nil
 //@   terminates
+
+// Parse (C01 for the CRLSet body): no panic for any input; every make/append allocates at
+// most 2^32 elements - a serial is at most 255 bytes (make([]byte, serial.Len)), an issuer
+// list grows by one entry per serial and the serial count is a 32-bit field (a CONSTANT
+// bound: that a list cannot outgrow the input - every entry consumed at least one byte -
+// needs the position of the reader, which the shared contract of encoding/binary.Read does
+// not model; for the same reason the outer loop has no variant and there is no `terminates`
+// clause; the inner loop terminates: loop 2 decreases). On success the result is a new set
+// carrying the given version, with a map of issuer lists.
+// `modifies all`: the loop summary of govc does not keep the frame across binary.Read into
+// loop-local variables; Parse only writes objects it allocated (and, through SetBytes on new
+// integers, the ghost relations about big.Int values).
+//@ func Parse
+//@   alloc <= 1 << 32
+//@   loop 1 invariant crlSet.Version == version && crlSet.IssuerLists != nil && fresh(crlSet.IssuerLists) && rest != nil
+//@   loop 2 invariant crlSet.Version == version && crlSet.IssuerLists != nil && fresh(crlSet.IssuerLists) && rest != nil
+//@   loop 2 invariant 0 <= len(issuerList.Entries) && len(issuerList.Entries) <= int(i) && i <= rawEntry.NumSerials
+//@   loop 2 decreases int(rawEntry.NumSerials) - int(i)
+//@   ensures result1 == nil ==> result0 != nil && fresh(result0) && result0.Version == version && result0.IssuerLists != nil
+//@   ensures result1 != nil ==> result0 == nil
+//@   modifies all
